@@ -674,9 +674,11 @@ def explore_tier(ctx, res, tier):
     res.cov["distinct_nontrivial"] = len(stats["distinct"])
     res.cov["traces_validated_against_impl"] = validated
     res.cov["rule"] = ("scripted histories on one real node directory per scenario (fixed: first DKG → beacons → reshare(stay) → restart → failed DKG → left; "
-                       "join → evicted; first → evicted; seeded random walks over init/staged/dkg first|join|stay|evict|skip/beacon/load/restart, 3–6 nodes, 5 schemes); "
-                       "for every persistence step observed (inotify events of the groups folder, bbolt commit counter) the directory image before, after and — for a file "
-                       "written in place — with the file cut at every line boundary, mid-line, 1, ½, len−1 (quick) or every byte offset (thorough, corpus scenarios) is "
+                       "join → evicted; first → evicted; stale temporary files (op stray: a long undecodable 0644 <file>.tmp, as a run that died inside a Save leaves) before loads, "
+                       "restarts, a resharing and an eviction; seeded random walks over init/staged/dkg first|join|stay|evict|skip/beacon/load/restart/stray, 3–6 nodes, 5 schemes); "
+                       "for every persistence step observed (inotify events of the groups folder, bbolt commit counter) the directory image before, after and — for the file "
+                       "being written, be it the key file itself (written in place) or the temporary sibling that is renamed onto it afterwards (the protocol is "
+                       "observed, not assumed) — with that file cut at every line boundary, mid-line, 1, ½, len−1 (quick) or every byte offset (thorough, corpus scenarios) is "
                        "materialised and the real LoadBeaconFromStore + raw loaders run on it. evaluations = crash images recovered; "
                        "non-trivial = distinct (DKG kind, membership, previous completed epoch, step, torn?, recovered record)")
     res.cov["distribution"] = {"ops_by_kind": stats["ops"], "images_by_step": stats["cuts"], "torn_prefix_classes": stats["torn"],
